@@ -403,7 +403,7 @@ Plan generate_diff(uint64_t seed) {
     int bursts = (int)r.range(1, 3);
     for (int b = 0; b < bursts; ++b) {
         { Step s; s.kind = SK::FHostileWindow; s.a = 1; s.b = (int)r.pick<int>({100, 200, 400}); s.delay = 50 * MS; push(s); }
-        { Step s; s.kind = SK::BrokerBurst; s.a = (int)r.range(2, 12); s.b = (int)r.pick<int>({4, 20, 60, 150}); s.delay = 1 * MS; push(s); }
+        { Step s; s.kind = SK::BrokerBurst; s.a = (int)r.range(2, 12); s.b = (int)r.pick<int>({4, 20, 60, 150}); s.c = r.chance(0.5); s.delay = 1 * MS; push(s); }
         { Step s; s.kind = SK::FHostileWindow; s.a = 0; s.delay = 1 * MS; push(s); }
     }
     { Step s; s.kind = SK::Wait; s.delay = 2 * SEC; push(s); }
